@@ -55,6 +55,7 @@ EH_FORMS = [
     ('list', ['X-One', 'X-Two']),
     ('tuple', []),
     ('str', ''),
+    ('str', '*'),                  # a legal Access-Control-Expose-Headers value
 ]
 
 REQUEST_ORIGINS = [
@@ -87,12 +88,20 @@ SHAPES = [  # (method, Access-Control-Request-Method, Access-Control-Request-Hea
 SHAPES_SMALL = [SHAPES[0], SHAPES[4], SHAPES[5], SHAPES[7], SHAPES[9]]
 
 
+class StrSub(str):
+    """A plain str subclass (e.g. a settings / URL type): equal to, and hashing like, its value."""
+
+
 def materialize(spec):
     kind, val = spec
     if kind == 'none':
         return None
     if kind == 'str':
         return val
+    if kind == 'substr':
+        return StrSub(val)
+    if kind == 'sublist':
+        return [StrSub(v) for v in val]
     if kind == 'list':
         return list(val)
     if kind == 'set':
@@ -108,7 +117,7 @@ def materialize(spec):
 
 def model_value(spec):
     kind, val = spec
-    return None if kind == 'none' else (val if kind == 'str' else list(val))
+    return None if kind == 'none' else (val if kind in ('str', 'substr') else list(val))
 
 
 # ---------------------------------------------------------------- responder plans
@@ -571,17 +580,47 @@ def check_exchange(rec, bench, fw, ctx, app, cfg, policy, target, shape, origin,
 
 # ---------------------------------------------------------------- duplicate guard (cors_enable + explicit component)
 
+class AuditedCORS(falcon.CORSMiddleware):
+    """A subclass that keeps the policy (a place to hang logging / auditing)."""
+
+
+class NarrowedCORS(falcon.CORSMiddleware):
+    """A subclass narrowing the built-in policy through the one documented method: process_response() is
+    overridden and delegates to super() only when the deployment's own rule agrees."""
+
+    rule = None                 # 'path' | 'origin' | 'preflight'
+    suspended = frozenset()
+
+    def refuses(self, req):
+        if self.rule == 'path':
+            return req.path.startswith('/plan')
+        if self.rule == 'origin':
+            return req.get_header('Origin') in self.suspended
+        if self.rule == 'preflight':
+            return req.method == 'OPTIONS'
+        return False
+
+    def process_response(self, req, resp, resource, req_succeeded):
+        if self.refuses(req):
+            return
+        super().process_response(req, resp, resource, req_succeeded)
+
+
 def check_guard(rec, static_dir):
     for fw in ('wsgi', 'asgi'):
         cls = falcon.asgi.App if fw == 'asgi' else falcon.App
         other = OtherA if fw == 'asgi' else OtherW
-        builders = {
-            'init-bare': lambda: cls(cors_enable=True, middleware=falcon.CORSMiddleware(allow_origins=OA)),
-            'init-list': lambda: cls(cors_enable=True, middleware=[other(), falcon.CORSMiddleware(allow_origins=OA)]),
-            'later': lambda: _later(cls(cors_enable=True), falcon.CORSMiddleware(allow_origins=OA)),
-            'later-list': lambda: _later(cls(cors_enable=True), [other(), falcon.CORSMiddleware(allow_origins=OA)]),
-        }
+        builders = {}
+        for cname, ccls in (('plain', falcon.CORSMiddleware), ('subclass', AuditedCORS), ('narrowing', NarrowedCORS),
+                            ('sub-subclass', type('Deeper', (AuditedCORS,), {}))):
+            builders.update({
+                cname + ':init-bare': lambda c=ccls: cls(cors_enable=True, middleware=c(allow_origins=OA)),
+                cname + ':init-list': lambda c=ccls: cls(cors_enable=True, middleware=[other(), c(allow_origins=OA)]),
+                cname + ':later': lambda c=ccls: _later(cls(cors_enable=True), c(allow_origins=OA)),
+                cname + ':later-list': lambda c=ccls: _later(cls(cors_enable=True), [other(), c(allow_origins=OA)]),
+            })
         for name, mk in sorted(builders.items()):
+            rec.count('guard.component.' + name.split(':')[0])
             rec.count('mon.duplicate-guard')
             try:
                 app = mk()
@@ -612,10 +651,35 @@ def _later(app, mw):
 
 # ---------------------------------------------------------------- workload
 
-def make_cors(cfg):
-    ao, ac, eh = cfg
-    return falcon.CORSMiddleware(allow_origins=materialize(ao), allow_credentials=materialize(ac),
-                                 expose_headers=materialize(eh))
+# how the three documented arguments reach the constructor; the published signature is
+# CORSMiddleware(allow_origins='*', expose_headers=None, allow_credentials=None)
+STYLES = ('kw', 'pos3', 'pos2kw', 'posmin', 'pos1kw', 'subinit')
+
+
+def make_cors(cfg, cls=None):
+    cls = cls or falcon.CORSMiddleware
+    ao, ac, eh = (materialize(x) for x in cfg[:3])
+    style = cfg[3] if len(cfg) > 3 else 'kw'
+    if style == 'kw':
+        return cls(allow_origins=ao, allow_credentials=ac, expose_headers=eh)
+    if style == 'pos3':
+        return cls(ao, eh, ac)
+    if style == 'pos2kw':
+        return cls(ao, eh, allow_credentials=ac)
+    if style == 'pos1kw':
+        return cls(ao, expose_headers=eh, allow_credentials=ac)
+    if style == 'posmin':            # positional, trailing defaults left out
+        args = [ao, eh, ac]
+        while len(args) > 1 and args[-1] is None:
+            args.pop()
+        return cls(*args)
+    if style == 'subinit':           # a subclass forwarding positionally in the documented order
+
+        class Forwarding(cls):
+            def __init__(self, *args):
+                super().__init__(*args)
+        return Forwarding(ao, eh, ac)
+    raise ValueError(style)
 
 
 def safe_app(rec, fw, ctx, cfg, static_dir):
@@ -628,7 +692,7 @@ def safe_app(rec, fw, ctx, cfg, static_dir):
 
 
 def make_policy(cfg):
-    ao, ac, eh = cfg
+    ao, ac, eh = cfg[:3]
     return M.Policy(model_value(ao), model_value(ac), model_value(eh))
 
 
@@ -640,12 +704,13 @@ QUICK_SINKS = ('sink0', 'sink1', 'sink4', 'sink5', 'sink7', 'sink12', 'sink13', 
 def table_for(rec, targets, with_other, level, salt):
     """Yield (target_no, target, shape_no, shape, origin_no, origin) for one app.
 
-    level 'full'    : every target x every shape x every origin (thorough tier, main context of a configuration)
+    level 'full'    : every target x every shape (sinks: the small shape list) x every origin
     level 'wide'    : key targets get the full product, the others the small shape list and a rotating half of
                       the origins (absent / allowed / hostile always included)
     level 'reduced' : a few targets, small shape list, five origins
     quick tier: one stand-alone context 'wide' + one other-middleware context 'reduced' per configuration;
-    thorough tier: one stand-alone context 'full', one other-middleware context 'wide', the five others 'reduced'
+    thorough tier: one stand-alone context 'full' (every second configuration, else 'wide'), one other-middleware
+    context 'wide', the five others 'reduced'
     """
     tl = list(targets) + (OTHER_TARGETS if with_other else [])
     for tn, t in enumerate(tl):
@@ -654,7 +719,7 @@ def table_for(rec, targets, with_other, level, salt):
         if level == 'wide' and t.name.startswith('sink') and t.name not in QUICK_SINKS:
             continue
         key = t.name in KEY_TARGETS
-        shapes = SHAPES if (level == 'full' or key) else SHAPES_SMALL
+        shapes = SHAPES if ((level == 'full' and not t.name.startswith('sink')) or key) else SHAPES_SMALL
         for sn, shape in enumerate(shapes):
             for on, origin in enumerate(REQUEST_ORIGINS):
                 if level == 'reduced' and on not in (0, 1, 3, 4, 10):
@@ -681,7 +746,8 @@ def exhaustive(rec, bench):
     for idx, (i, j, k) in enumerate(combos):
         if idx % rec.nshards != rec.shard:
             continue
-        cfg = (AO_FORMS[i], AC_FORMS[j], EH_FORMS[k])
+        cfg = (AO_FORMS[i], AC_FORMS[j], EH_FORMS[k], STYLES[idx % len(STYLES)])
+        rec.count('style.' + cfg[3])
         policy = make_policy(cfg)
         rec.seen('configs', repr(cfg))
         rec.seen('config-pairs', ('ao-eh', i, k))
@@ -690,7 +756,10 @@ def exhaustive(rec, bench):
         main_alone = CONTEXTS_ALONE[idx % 3]
         main_other = CONTEXTS_OTHER[(idx // 3) % 4]
         if thorough:
-            plan = [(main_alone, 'full'), (main_other, 'wide')] + \
+            # the full product in the stand-alone context for every second configuration (each allow_origins x
+            # allow_credentials pair still meets it with half of the expose forms), 'wide' for the others: sized so
+            # that the tier also finishes on a heavily loaded machine
+            plan = [(main_alone, 'full' if idx % 2 == 0 else 'wide'), (main_other, 'wide')] + \
                    [(c, 'reduced') for c in CONTEXTS_ALONE + CONTEXTS_OTHER if c not in (main_alone, main_other)]
         else:
             plan = [(main_alone, 'wide'), (main_other, 'reduced')]
@@ -750,15 +819,24 @@ def hist_targets():
     return [t for t in all_targets() if t.name in HIST_TARGET_NAMES]
 
 
-def mini_table(rec, bench, apps, label, base_k, state, desc, step):
-    """The reduced request table against the current state of one app pair; returns number of findings."""
+NOBODY = M.Policy(allow_origins=[])
+
+
+def mini_table(rec, bench, apps, label, base_k, state, desc, step, refused=None):
+    """The reduced request table against the current state of one app pair; returns number of findings.
+    refused(target, shape, origin) -> True when the deployment's own rule withholds the policy for that exchange."""
     cfg = tuple(tuple(x) if isinstance(x, list) else x for x in state)
-    policy = make_policy(cfg)
+    base_policy = make_policy(cfg)
     n = 0
     for fw in ('wsgi', 'asgi'):
         for tn, t in enumerate(hist_targets()):
             for sn, shape in enumerate(HIST_SHAPES):
                 for on, origin in enumerate(HIST_ORIGINS):
+                    policy = base_policy
+                    if refused is not None and refused(t, shape, origin):
+                        policy = NOBODY
+                        if base_policy.allowed(origin):
+                            rec.count('hist.narrow.refused-though-configured.' + fw)
                     f = check_exchange(rec, bench, fw, label, apps[fw], cfg, policy, t, shape, origin,
                                        ORIGIN_NAMES[(tn + sn + on) % 3], plan_spec=t.plan.spec() if t.plan else None,
                                        base_k=base_k, extra={'history': desc, 'step': step})
@@ -1038,8 +1116,35 @@ def history_overlap(rec, bench, desc):
                 rec.count('hist.overlap.two-preflights')
 
 
+def history_narrow(rec, bench, desc):
+    """A CORSMiddleware subclass overrides the documented process_response() and calls super() only when its own
+    rule agrees (excluded paths, origins suspended at run time, no preflights at all).  What the rule refuses must
+    look like the app without a CORS policy, on WSGI and on ASGI alike.
+
+    desc: config (forms), rule = 'path' | 'origin' | 'preflight', suspend = list of origin lists (one per step)."""
+    cfg = tuple(_norm_spec(x) for x in desc['config'])
+    try:
+        cors = make_cors(cfg, NarrowedCORS)
+        cors.rule = desc['rule']
+        apps = {fw: build_app(fw, 'list', cors, bench.static_dir) for fw in ('wsgi', 'asgi')}
+    except Exception as e:  # noqa
+        rec.violation('legal-configuration-rejected', {'history': desc, 'exc': repr(e)})
+        return
+    for i, susp in enumerate(desc.get('suspend') or [[]]):
+        cors.suspended = frozenset(susp)
+
+        def refused(t, shape, origin, susp=frozenset(susp)):
+            if desc['rule'] == 'path':
+                return t.path.startswith('/plan')
+            if desc['rule'] == 'origin':
+                return origin in susp
+            return shape[0] == 'OPTIONS'
+        rec.count('hist.narrow.steps')
+        mini_table(rec, bench, apps, 'history:narrow', 'none', list(cfg), desc, i, refused=refused)
+
+
 HISTORY_KINDS = {'reconfig': history_reconfig, 'alias': history_alias, 'guard': history_guard,
-                 'overlap': history_overlap}
+                 'overlap': history_overlap, 'narrow': history_narrow}
 
 
 def history_descs():
@@ -1094,6 +1199,13 @@ def history_descs():
             for then in (['empty-list'], ['none'], ['empty-tuple'], ['other'], ['other-list'],
                          ['empty-list', 'other', 'none']):
                 out.append({'kind': 'guard', 'initial': initial, 'refused': refused, 'then': then})
+    # -- a subclass narrowing the policy through the documented process_response()
+    for cfg in ([('str', '*'), ('none', None), ('str', 'X-One')],
+                [('set', [OA, OB]), ('str', '*'), ('none', None)],
+                [('str', '*'), ('set', [OA, OC]), ('list', ['X-One', 'X-Two'])]):
+        out.append({'kind': 'narrow', 'config': cfg, 'rule': 'path'})
+        out.append({'kind': 'narrow', 'config': cfg, 'rule': 'preflight'})
+        out.append({'kind': 'narrow', 'config': cfg, 'rule': 'origin', 'suspend': [[OB], [OB, OA], []]})
     # -- two overlapping requests in one threaded-style WSGI app
     for ci, cfg in enumerate(OVERLAP_CONFIGS):
         for a in range(len(OVERLAP_REQUESTS)):
@@ -1147,9 +1259,11 @@ def rand_form(rng, items, allow_none=False, allow_star=True):
         return ('none', None)
     if allow_star and r < 0.4:
         return ('str', '*')
+    if allow_star and r < 0.45:
+        return ('substr', '*')
     if len(items) == 1 and rng.random() < 0.5:
-        return ('str', items[0])
-    return (rng.choice(['list', 'set', 'tuple', 'iter', 'frozenset']), list(items))
+        return (rng.choice(['str', 'substr']), items[0])
+    return (rng.choice(['list', 'set', 'tuple', 'iter', 'frozenset', 'sublist']), list(items))
 
 
 def rand_plan(rng):
@@ -1194,7 +1308,7 @@ def random_part(rec, bench):
             ac = ('list', [])
         eh_items = [rng.choice(['X-One', 'X-Two', 'ETag', 'Link', 'x-lower']) for _ in range(rng.randint(0, 3))]
         eh = rng.choice([('none', None), ('list', eh_items), ('tuple', eh_items), ('str', ', '.join(eh_items))])
-        cfg = (ao, ac, eh)
+        cfg = (ao, ac, eh, rng.choice(STYLES))
         policy = make_policy(cfg)
         rec.seen('configs', repr(cfg))
         rec.count('random.configs')
@@ -1260,6 +1374,11 @@ def run(rec):
         'HTTPStatus with a 2xx status raised by an OPTIONS responder: success undetermined, only origin/credential cells '
         'judged; HTTPStatus with a 3xx/4xx/5xx status (incl. redirects) raised by responder/sink/middleware: a failed exchange',
         'twin app without the CORS component is the source of "what the responder produced"',
+        'the constructor arguments may be given by keyword or positionally in the published order (allow_origins, '
+        'expose_headers, allow_credentials), also through a forwarding subclass; plain str subclasses count as str',
+        'a CORSMiddleware subclass that overrides the documented process_response() and calls super() only when its own '
+        'rule agrees narrows the configuration: what the rule refuses must get no cross-origin header, WSGI and ASGI; '
+        'a subclass instance next to cors_enable=True is a second policy like a plain instance',
         'overlapping requests are modelled in one thread through a custom response_type whose header operations are '
         'the preemption points (B runs completely while A is paused); WSGI only - the ASGI CORS hook has no await',
         '"the configuration" = the value of the public attributes allow_origins / allow_credentials / expose_headers at '
@@ -1293,7 +1412,8 @@ def run(rec):
         ('mon.no-wildcard-with-credentials', 10000), ('mon.no-approval-outside-preflight', 8000),
         ('mon.no-approval-on-failed-exchange', 1000), ('mon.refused-preflight-withdraws-all', 1500),
         ('mon.approved-preflight', 3000), ('mon.table-origin', 10000), ('mon.table-expose', 10000),
-        ('mon.duplicate-guard', 32), ('guard.rejected', 32), ('guard.accepted-legal', 16),
+        ('mon.duplicate-guard', 128), ('guard.rejected', 128), ('guard.accepted-legal', 16),
+        ('guard.component.subclass', 32), ('guard.component.narrowing', 32), ('guard.component.sub-subclass', 32),
         ('cell.no_origin', 5000), ('cell.disallowed', 20000), ('cell.allowed.cred', 3000),
         ('cell.allowed.wildcard', 4000), ('cell.allowed.echo', 2000), ('cell.pf.successful', 4000),
         ('cell.pf.failed', 1000), ('cell.responder-preset-origin', 3000), ('cell.disallowed-with-preset', 5000),
@@ -1312,9 +1432,11 @@ def run(rec):
         ('hist.alias.mutated-list', 60), ('hist.alias.late-added-origin', 40), ('hist.alias.late-removed-origin', 30),
         ('hist.alias.late-added-credential', 10),
         ('hist.guard', 36), ('hist.guard.refused', 72), ('hist.guard.reprepared', 36),
+        ('hist.narrow', 9), ('hist.narrow.steps', 15), ('hist.narrow.refused-though-configured.wsgi', 100),
+        ('hist.narrow.refused-though-configured.asgi', 100),
         ('hist.overlap', 100), ('hist.overlap.interleavings', 500), ('hist.overlap.two-preflights', 150),
         ('hist.overlap.judged-a', 500), ('hist.overlap.judged-b', 500),
-    ] + [('tgt.%sgate-%s' % (st, g), 30) for st in 'qr' for g in GATES] + \
+    ] + [('style.' + st, 5) for st in STYLES] + [('tgt.%sgate-%s' % (st, g), 30) for st in 'qr' for g in GATES] + \
             [('pf.failed-with-allow.%s.%s' % (st, fw), 500) for st in ('mw-request', 'mw-resource', 'responder')
              for fw in ('wsgi', 'asgi')] + \
             [('pf.failed-with-allow.httpstatus.' + fw, 500) for fw in ('wsgi', 'asgi')] + \
@@ -1348,7 +1470,7 @@ def replay(rec, w):
             rec.case('guard2')
             return
         bench = Bench(static_dir)
-        cfg = tuple((k, v) for k, v in wit['config'])
+        cfg = tuple(tuple(x) if isinstance(x, list) else x for x in wit['config'])
         policy = make_policy(cfg)
         fw, ctx = wit['fw'], wit['ctx']
         plan = Plan.from_spec(wit['plan']) if wit.get('plan') else None
